@@ -146,8 +146,9 @@ let layout_line (toks : string array) : string =
   case ^ " ## " ^ exp ^ " ## " ^ (if wf then "1" else "0")
 
 (* M arch os base ip0 n (tech nfill fill_1..fill_nfill ra)*n nmods (mbase msize sym)*      tech: 0 = CFI, 1 = scan
-   answer:  <case line> ## <expected chain: instr,resume,sp,trust|...> ## <mix_wf_layout: 0|1>
-   stack words, chain and precondition all come from the extracted Coq builder of theorem c04_recovers_chain *)
+   answer:  <case line> ## <expected chain: instr,resume,sp,trust|...> ## <mix_wf_layout><rules_ok><walk with cfi_rules = chain>
+   (three 0|1 flags); stack words, chain and preconditions all come from the extracted Coq builder of theorems
+   c04_recovers_chain / c04_recovers_chain_rules *)
 let mix_line (toks : string array) : string =
   let pos = ref 1 in
   let next () = let t = toks.(!pos) in incr pos; t in
@@ -170,13 +171,16 @@ let mix_line (toks : string array) : string =
   let gp0 = List.init ngp (fun _ -> z_of_int 0) in
   let ((r, words), chain) = layout_mix archid (z_of_string base_s) (z_of_string ip0_s) gp0 specs in
   let wf = layout_mix_wf archid (z_of_string base_s) (z_of_string ip0_s) mods specs in
+  let rok = layout_mix_rules_ok archid (z_of_string ip0_s) mods specs in
+  let rwalk = layout_mix_rules_walk archid (z_of_string os_s) (z_of_string base_s) (z_of_string ip0_s) gp0 mods specs in
   let case = String.concat " " ([ arch_s; os_s; string_of_z (r_ip r); string_of_z (r_sp r); string_of_z (r_fp r); string_of_z (r_lr r);
                                   string_of_int ngp ] @ List.init ngp (fun _ -> "0") @
                                 [ "*"; base_s; hex_of_words pw words; string_of_int nm ] @
                                 List.concat_map (fun (b, s, y) -> [ b; s; y ]) modtoks) in
   let exp = String.concat "|" (List.map (fun (((i, rs), sp), t) ->
     string_of_z i ^ "," ^ string_of_z rs ^ "," ^ string_of_z sp ^ "," ^ trust_name (int_of_z t)) chain) in
-  case ^ " ## " ^ exp ^ " ## " ^ (if wf then "1" else "0")
+  let b x = if x then "1" else "0" in
+  case ^ " ## " ^ exp ^ " ## " ^ b wf ^ b rok ^ b rwalk
 
 let () =
   try
